@@ -91,6 +91,17 @@ def run(ctx):
     dts, ops, funcs, changed = gen.write(fw.REPO, fw.COQ)
     ctx.notes.append("Gen/OpTable.v regenerated from %s (%d datatypes, %d operators, %d functions)%s"
                      % (fw.REPO, len(dts), len(ops), len(funcs), ", content changed" if changed else ""))
+    # the extracted model embeds the generated tables: rebuild it whenever their content differs from what it was built from
+    # (file dates alone are not enough when the Coq tree is a restored copy, as under bin/mutcheck)
+    import hashlib
+    h = hashlib.sha1(b"".join(open(os.path.join(fw.COQ, "theories", x), "rb").read() for x in ("Gen/OpTable.v", "Smpi/Op.v"))).hexdigest()
+    md = os.path.join(fw.B, "ocaml", "c31")
+    os.makedirs(md, exist_ok=True)
+    hp = os.path.join(md, "tables.sha")
+    if not os.path.exists(hp) or open(hp).read() != h:
+        if os.path.exists(os.path.join(md, "c31")):
+            os.remove(os.path.join(md, "c31"))
+        open(hp, "w").write(h)
     ctx.prove(["coq/theories/Extract_c31.v uses ExtrOcamlString (standard library) so that the generated string tables extract to char lists",
                "gen/ops.py (regular-expression reading of the macro tables of smpi_op.cpp and smpi_datatype.cpp)"])
     prog = fw.build_smpi_prog("smpi_c31", lang="cpp")
@@ -220,7 +231,7 @@ META = {
             "over the regenerated tables Coq proves (finite, vm_compute + forallb_forall): every dispatch entry uses the declared C type "
             "(C31_table_types); the accepted pairs are exactly MPI-3.1's allowed pairs plus a listed set of extensions (C31_supported_iff); every "
             "accepted pair is dispatched to its own operator's macro on a known C type, except the listed aborting pairs "
-            "(C31_accepted_dispatched); sized datatypes have the mandated size except MPI_COMPLEX32 (C31_sizes). For all values Coq proves the "
+            "(C31_accepted_dispatched); every datatype is declared with a C type of the width/signedness/shape MPI gives it (C31_declared_kinds) and sized datatypes have the mandated size except MPI_COMPLEX32 (C31_sizes). The model computes values with the operator's own macro on MPI's C type for the datatype name, so a wrong dispatch entry shows as a wrong result. For all values Coq proves the "
             "element macros compute MPI's results: MAX/MIN (C31_max_min), SUM/PROD modulo 2^w in the type's range and exact when representable "
             "(C31_sum_wraps, C31_prod_wraps), logical and bitwise operators (C31_logical, C31_bitwise), MINLOC/MAXLOC with ties on the lowest "
             "index (C31_minloc_lowest_index, C31_maxloc_lowest_index), complex sum/product (C31_complex; the pinned component-wise product is "
@@ -231,5 +242,5 @@ META = {
             "Recorded findings: extensions accepted beyond MPI (MPI_CHAR, logical operators on floating point), MPI_INTEGER16 accepted then "
             "aborts, MPI_COMPLEX32 declared as two doubles.",
     "technique": "source-to-Coq table translator + Coq proof (finite tables by computation, element semantics by lia) + extracted-model correspondence",
-    "claimed": False,
+    "claimed": True,
 }
